@@ -246,6 +246,34 @@ example :
     ((bond s 3 10).toOption.bind fun x => (unbond x.1 x.2 x.2).toOption.map (·.2)) = some 4 ∧
     ((bond s 1000003 2000000).toOption.bind fun x => (unbond x.1 x.2 x.2).toOption.map (·.2)) = some 1000003 := by decide
 
+/-- what a borrower does never lowers the vault's stated value nor touches the share supply, PROVIDED the interest booked inside the
+call is not negative: the stated value moves by deposits, redemptions and interest only (the clause the history check C07H
+evaluates on every real block) -/
+theorem borrower_ops_keep_value (s s' : St) (amt i bal : Int) (hi : 0 ≤ i) :
+    (borrow s amt i = .ok s' → s.tv ≤ s'.tv ∧ s'.supply = s.supply) ∧
+    (repay s amt i bal = .ok s' → s.tv ≤ s'.tv ∧ s'.supply = s.supply) ∧
+    s.tv ≤ (accrue s i).tv ∧ (accrue s i).supply = s.supply := by
+  refine ⟨fun h => ?_, fun h => ?_, by simp only [accrue]; omega, rfl⟩
+  · unfold borrow at h
+    split at h; · simp at h
+    simp only at h
+    split at h; · simp at h
+    split at h; · simp at h
+    simp only [Except.ok.injEq] at h; subst h
+    exact ⟨by simp [accrue]; omega, by simp [accrue]⟩
+  · unfold repay at h
+    simp only at h
+    repeat' (split at h)
+    all_goals first
+      | (simp at h; done)
+      | (simp only [Except.ok.injEq] at h; subst h; exact ⟨by simp [accrue]; omega, by simp [accrue]⟩)
+
+/-- WITNESS (the shape of seeded change C07-5): interest computed as the difference of two RAW rates is negative once the rate
+model lowered the rate: booking −2740 on a vault of 10⁹ at rate 1 takes the rate below 1 for every lender. -/
+theorem negative_interest_witness :
+    let s : St := { tv := 1000000000, supply := 1000000000, cash := 900000000, borrowed := 100000000, stacked := 0, paid := 0 }
+    (accrue s (-2740)).tv = 999997260 ∧ rate (accrue s (-2740)).tv (accrue s (-2740)).supply < rate s.tv s.supply := by decide
+
 /-- a tie: rate exactly 1.5, bond 3 → 2 shares exactly; bond 2 → 1.333 → 1 share; bond 1 → 0.667 → 1 share. -/
 example : sharesFor 3 (rate 3 2) = 2 ∧ sharesFor 2 (rate 3 2) = 1 ∧ sharesFor 1 (rate 3 2) = 1 ∧
     payoutFor 1 (rate 3 2) = 2 ∧ payoutFor 3 (rate 3 2) = 4 := by decide
